@@ -42,6 +42,9 @@ def items_menu(thorough):
     # Duration groups that all have the same content: distinct processes whose listed text is identical
     m.append(("dur-fixed", 1, "s"))
     m.append(("dur-fixed", 2.5, "s"))
+    # a second value of the value-taking definition: B/x and B/y are different processes that may overlap
+    m.append(("on", "B/y"))
+    m.append(("off", "B/y"))
     if thorough:
         m.append(("inset", "B/x"))
         m.append(("delay-dur", 0.5, 0.5))
@@ -346,7 +349,7 @@ def worker(rec, shard, nshards, nrows, thorough, seed):
     rowkinds = singles + pairs
     # the longest histories of the quick tier use a reduced row menu (every item kind once, the multi-Delay pairs kept)
     keep = {("on", "A"), ("on", "B/x"), ("off", "A"), ("off", "B/x"), ("tag",), ("dur", 1.5, "s"), ("dur", 1500, "ms"),
-            ("delay-on", "A", 0.5), ("delay-dur", 1.0, 1.5), ("dur-fixed", 2.5, "s")}
+            ("delay-on", "A", 0.5), ("delay-dur", 1.0, 1.5), ("dur-fixed", 2.5, "s"), ("on", "B/y"), ("off", "B/y")}
     small = [i for i, rk in enumerate(rowkinds) if (len(rk) == 0 or (len(rk) == 1 and rk[0] in keep)
                                                     or (len(rk) == 2 and rk[0][0].startswith("delay")))]
     keep4 = {("on", "A"), ("off", "A"), ("on", "B/x"), ("tag",), ("dur", 1.5, "s"), ("delay-on", "A", 0.5), ("delay-dur", 1.0, 1.5),
